@@ -154,6 +154,13 @@ def gen(tier, seed):
         mods.append(emit(f'm{n:04d}', f'{S.shape_id(sh)}/copy=1', sh, True)); n += 1
     for sh in copy_m:
         mods.append(emit(f'm{n:04d}', f'{S.shape_id(sh)}/copy=1+method', sh, True)); n += 1
+    from . import model
+    model.TYPE_WRAP = model.generic_header_wrap
+    try:
+        for sh in [('struct', [('named', ['u', 'b', 'm'])]), ('enum', [('tuple', ['m', 'u']), ('named', ['u', 'b']), ('unit', [])])]:
+            mods.append(emit(f'm{n:04d}', f'{S.shape_id(sh)}/copy=0/generic header <G, const N> where G: Copy at <u8, 3>', sh, False)); n += 1
+    finally:
+        model.TYPE_WRAP = None
     mods.append(union_module(f'm{n:04d}')); n += 1
     mods.append(generic_module(f'm{n:04d}')); n += 1
     return mods
